@@ -186,7 +186,10 @@ def run_harnesses(run, harnesses, procs=16, twins=True):
                     run.count("disagreements_replayed")
                     run.failure(h.key, f"harness={h.name} call={r['call']} concrete_replay={rep} ({r['exc']})", {"kind": "ch", "harness": h.name, "src": h.src, "prelude": h.prelude, "call": r["call"], "replay": rep})
             elif r["status"] == "not_confirmed":
-                run.inconc(f"harness {h.name}: not confirmed within {h.timeout}s (no counterexample found)")
+                # no verdict (for instance code that starts threads, which CrossHair cannot follow): the harness's concrete
+                # probe calls are at least executed (bug hunting); the claim itself stays inconclusive
+                if not (h.probe and _history_probe(run, h, h.probe, "no verdict from CrossHair; concrete probe calls")):
+                    run.inconc(f"harness {h.name}: not confirmed within {h.timeout}s (no counterexample found)")
             elif r["status"] == "vacuous":
                 run.harness_error(f"harness {h.name}: unable to meet precondition")
             else:
